@@ -196,7 +196,7 @@ class LibMixin:
                 objs = v.t.acc('kobj' if v.t.kind == 'rdict' else 'obj')(self.c_term(v, st))
                 i = z3.Int('i!o')
                 st.assume(z3.ForAll([i], z3.Select(objarr, i) == z3.Select(objs, z3.Select(arr, i)),
-                                    patterns=[z3.Select(objarr, i)]))
+                                    patterns=[z3.Select(objarr, i), z3.Select(arr, i)]))
                 lt = T('list', [self.ctx.rec_elem_type])
                 c = self.new_cont(lt, st, lt.mk(n, objarr))
                 c.keys_arr = arr
@@ -241,8 +241,10 @@ class LibMixin:
 
     def bi_set(self, args, kw, st, frame, node):
         if not args:
-            t = self.hint_type(node, frame) or T('set', [STR])
-            yield st, self.new_cont(t, st)
+            h = self.hint_type(node, frame)
+            c = self.new_cont(h or T('set', [STR]), st)
+            c.empty_literal = h is None
+            yield st, c
             return
         v = args[0]
         yield st, self.to_set(v, st, frame, node)
@@ -739,6 +741,10 @@ class LibMixin:
             for k, v in st.locals.items():
                 if k not in o.locals:
                     o.locals[k] = v
+            # containers created after the pre-state (result lists, ...) have no old value: current one
+            for cid, tv in st.cells.items():
+                if cid not in o.cells:
+                    o.cells[cid] = tv
             return self.ev1(a[0], o, frame)
         if name in ('forall', 'exists'):
             decl = a[0].value
